@@ -1009,6 +1009,9 @@ pub struct Applied<H: HB> {
 /// a fresh clone with tightly sized vectors, so without this no operation ever runs on a queue whose
 /// tables have room to spare. Switched off only where a layer measures costs or injects faults.
 pub static ROOMY_TWIN: AtomicBool = AtomicBool::new(true);
+/// The third execution with a large reservation: on (default, replays, closed small-scope runs) or
+/// off (seeded depth-bounded runs, whose many small post-states would pay a 4 MB reservation each).
+pub static LARGE_TWIN: AtomicBool = AtomicBool::new(true);
 
 /// One transition on a clone of `q`, fully checked: return value legality, contents, tables, order.
 pub fn apply<H: HB>(q: &AnyQ<H>, unordered: bool, m: &Model, op: &Op, universe: &[u32]) -> Result<Applied<H>, String> {
@@ -1076,7 +1079,7 @@ pub fn apply<H: HB>(q: &AnyQ<H>, unordered: bool, m: &Model, op: &Op, universe: 
     // a second twin with a LARGE reservation for the operations where a policy keyed on the capacity
     // ("release oversized tables", "cheap path when the table is sparse") is plausible; on small
     // queues only, where the allocation dominates the cost
-    if ROOMY_TWIN.load(AO::Relaxed) && m.len() <= 4 && matches!(op, Op::Clear | Op::Drain { .. } | Op::Retain(_) | Op::RetainMut(..) | Op::Append(_) | Op::CloneFrom(_)) {
+    if ROOMY_TWIN.load(AO::Relaxed) && LARGE_TWIN.load(AO::Relaxed) && m.len() <= 4 && matches!(op, Op::Clear | Op::Drain { .. } | Op::Retain(_) | Op::RetainMut(..) | Op::Append(_) | Op::CloneFrom(_)) {
         let mut un2 = unordered;
         let mut m2 = m.clone();
         let res = catch_unwind(AssertUnwindSafe(|| {
